@@ -626,3 +626,130 @@ Section inj.
       + by rewrite bucket_order_Permutation.
   Qed.
 End inj.
+
+Section main.
+  Variable h : list N → N.
+  Variable depth : N.
+
+  Definition kvf (e : list N * rvalue) : N * N := (h (key_bytes e.1), h (value_bytes e.2)).
+
+  Lemma kv_digests l : map kv_of (digests h l) = map kvf l.
+  Proof. unfold digests. rewrite map_map. reflexivity. Qed.
+
+  Lemma in_inputs_key l e : e ∈ l → key_bytes e.1 ∈ hash_inputs h depth l.
+  Proof.
+    intros He. unfold hash_inputs. apply elem_of_app. left.
+    change (map ?f ?l) with (f <$> l). apply elem_of_list_fmap. by exists e.
+  Qed.
+  Lemma in_inputs_val l e : e ∈ l → value_bytes e.2 ∈ hash_inputs h depth l.
+  Proof.
+    intros He. unfold hash_inputs. apply elem_of_app. right. apply elem_of_app. left.
+    change (map ?f ?l) with (f <$> l). apply elem_of_list_fmap. by exists e.
+  Qed.
+  Lemma in_inputs_bucket l i :
+    i ∈ bucket_ids depth →
+    enc_digests (bucket_order (bucket_digests depth (digests h l) i)) ∈ hash_inputs h depth l.
+  Proof.
+    intros Hi. unfold hash_inputs. apply elem_of_app. right. apply elem_of_app. right.
+    apply elem_of_app. left.
+    change (map ?f ?l) with (f <$> l). apply elem_of_list_fmap. by exists i.
+  Qed.
+  Lemma in_inputs_chain l i0 ids x :
+    bucket_ids depth = i0 :: ids →
+    x ∈ chain_inputs h (node_at h depth l i0) (map (node_at h depth l) ids) →
+    x ∈ hash_inputs h depth l.
+  Proof.
+    intros Hids Hx. unfold hash_inputs. apply elem_of_app. right. apply elem_of_app. right.
+    apply elem_of_app. right. unfold bucket_nodes. rewrite Hids. exact Hx.
+  Qed.
+
+  Lemma Forall2_map_same {A B} (R : B → B → Prop) (f g : A → B) (l : list A) :
+    Forall2 R (map f l) (map g l) → ∀ x, x ∈ l → R (f x) (g x).
+  Proof.
+    induction l as [|a l IH]; intros HF x Hx; [by apply elem_of_nil in Hx|].
+    simpl in HF. apply Forall2_cons in HF as [Ha HF].
+    apply elem_of_cons in Hx as [->|Hx]; [done|]. by apply IH.
+  Qed.
+
+  Theorem equal_digest_equal_state_lemma (l1 l2 : list (list N * rvalue)) :
+    HashOK h (hash_inputs h depth l1 ++ hash_inputs h depth l2) →
+    Forall (λ e, DigestVisible e.2) l1 → Forall (λ e, DigestVisible e.2) l2 →
+    sd_root (from_state h depth l1) = sd_root (from_state h depth l2) →
+    l1 ≡ₚ l2.
+  Proof.
+    set (S := hash_inputs h depth l1 ++ hash_inputs h depth l2).
+    intros HS V1 V2 Hroot.
+    assert (In1 : ∀ x, x ∈ hash_inputs h depth l1 → x ∈ S).
+    { intros x Hx. apply elem_of_app. by left. }
+    assert (In2 : ∀ x, x ∈ hash_inputs h depth l2 → x ∈ S).
+    { intros x Hx. apply elem_of_app. by right. }
+    (* every key/value hash is a u64 *)
+    assert (R1 : Forall kd_u64 (digests h l1)).
+    { apply Forall_forall. intros d Hd. unfold digests in Hd.
+      change (map ?f ?l) with (f <$> l) in Hd. apply elem_of_list_fmap in Hd as (e & -> & He).
+      split; simpl.
+      - apply (HS_range h S HS), In1. by apply in_inputs_key.
+      - apply (HS_range h S HS), In1. by apply in_inputs_val. }
+    assert (R2 : Forall kd_u64 (digests h l2)).
+    { apply Forall_forall. intros d Hd. unfold digests in Hd.
+      change (map ?f ?l) with (f <$> l) in Hd. apply elem_of_list_fmap in Hd as (e & -> & He).
+      split; simpl.
+      - apply (HS_range h S HS), In2. by apply in_inputs_key.
+      - apply (HS_range h S HS), In2. by apply in_inputs_val. }
+    (* equal roots: equal hash in every bucket *)
+    assert (Hnodes : ∀ i, i ∈ bucket_ids depth →
+              n_hash (node_at h depth l1 i) = n_hash (node_at h depth l2 i)).
+    { unfold from_state in Hroot. simpl in Hroot. rewrite !bucket_nodes_node_at in Hroot.
+      destruct (bucket_ids depth) as [|i0 ids] eqn:Hids.
+      { intros i Hi. by apply elem_of_nil in Hi. }
+      simpl in Hroot.
+      assert (W : ∀ l, (∀ x, x ∈ hash_inputs h depth l → x ∈ S) →
+                  ∀ i, i ∈ i0 :: ids → nwf (node_at h depth l i)).
+      { intros l Hl i Hi. apply (nwf_from_digests h S HS). apply Hl, in_inputs_bucket.
+        by rewrite Hids. }
+      destruct (chain_inj h S HS (map (node_at h depth l1) ids) (map (node_at h depth l2) ids)
+                  (node_at h depth l1 i0) (node_at h depth l2 i0)) as [H0 HF].
+      - by rewrite !map_length.
+      - apply (W l1 In1). left.
+      - apply (W l2 In2). left.
+      - apply Forall_forall. intros n Hn. change (map ?f ?l) with (f <$> l) in Hn.
+        apply elem_of_list_fmap in Hn as (i & -> & Hi). apply (W l1 In1). by right.
+      - apply Forall_forall. intros n Hn. change (map ?f ?l) with (f <$> l) in Hn.
+        apply elem_of_list_fmap in Hn as (i & -> & Hi). apply (W l2 In2). by right.
+      - intros x Hx. eapply In1, in_inputs_chain; eauto.
+      - intros x Hx. eapply In2, in_inputs_chain; eauto.
+      - exact Hroot.
+      - intros i Hi. apply elem_of_cons in Hi as [->|Hi]; [done|].
+        by apply (Forall2_map_same _ _ _ _ HF). }
+    (* equal bucket hash: the same (key hash, value hash) pairs in the bucket *)
+    assert (Hb : ∀ i, i ∈ bucket_ids depth →
+              map kv_of (bucket_digests depth (digests h l1) i) ≡ₚ
+              map kv_of (bucket_digests depth (digests h l2) i)).
+    { intros i Hi. apply (from_digests_hash_inj h S HS).
+      - by apply In1, in_inputs_bucket.
+      - by apply In2, in_inputs_bucket.
+      - unfold bucket_digests. by apply Forall_filter.
+      - unfold bucket_digests. by apply Forall_filter.
+      - by apply Hnodes. }
+    (* hence over the whole state *)
+    assert (Hkv : map kvf l1 ≡ₚ map kvf l2).
+    { rewrite <- !kv_digests.
+      rewrite (bucket_partition depth (digests h l1)) at 1.
+      rewrite (bucket_partition depth (digests h l2)) at 1.
+      rewrite !concat_map, !map_map. by apply concat_map_perm. }
+    (* the pair of hashes determines the entry *)
+    apply (Permutation_map_inj_on kvf); [|exact Hkv].
+    intros e1 e2 He1 He2 Hf. unfold kvf in Hf. injection Hf as Hk Hv.
+    assert (Mk : ∀ e, e ∈ l1 ++ l2 → key_bytes e.1 ∈ S ∧ value_bytes e.2 ∈ S ∧ DigestVisible e.2).
+    { intros e He. apply elem_of_app in He as [He|He].
+      - split; [by apply In1, in_inputs_key|]. split; [by apply In1, in_inputs_val|].
+        by apply (proj1 (Forall_forall _ _) V1).
+      - split; [by apply In2, in_inputs_key|]. split; [by apply In2, in_inputs_val|].
+        by apply (proj1 (Forall_forall _ _) V2). }
+    destruct (Mk e1 He1) as (K1 & Va1 & D1). destruct (Mk e2 He2) as (K2 & Va2 & D2).
+    apply (HS_inj h S HS) in Hk; [|done..]. apply (HS_inj h S HS) in Hv; [|done..].
+    unfold key_bytes in Hk. apply app_inv_tail in Hk.
+    apply value_bytes_inj in Hv; [|done..].
+    destruct e1, e2; simpl in *; congruence.
+  Qed.
+End main.
